@@ -329,3 +329,100 @@ Proof.
   - cbn [queries_ok ex_items_tight]. repeat split. exists 1. split; reflexivity.
   - reflexivity.
 Qed.
+
+(* ================= what the expected output differs from the written AST in ================= *)
+(* The round-trip theorems return `rloc` / `sloc` / `block_loc` / `file_items_loc` of the written AST,
+   functions of Spec/Render.v.  The theorems below (Proofs/SlocErase.v) say what those functions can
+   change.  For expressions: locations and the resolution fields of captures only. *)
+From TSG Require Import Proofs.SlocErase.
+
+(* `erase_locs` sets every location to (0,0) and every capture to the unresolved form the parser
+   always writes (QZero, u32_max, u32_max); it changes nothing else.  The located expression erases
+   to the erased input: `rloc` changes locations (and capture resolution) only. *)
+Theorem rloc_changes_locations_only : forall e L p, erase_locs (rloc L p e) = erase_locs e.
+Proof. exact rloc_erase. Qed.
+
+(* Statements.  `sloc` changes exactly four things: (1) locations; (2) capture resolution; (3) the
+   derived variable text of a `node` statement (reset to []: not produced by the parser, see
+   Model/ParserObs.v erase_stmt); (4) the NUMBER of every scan arm (the next free number in order of
+   appearance from k on).  `erase_stmt_locs` erases these four (arm numbers become 0) and nothing
+   else: names, literals, the shape of every block, attribute names, condition kinds stay. *)
+Theorem sloc_changes_locations_only : forall tbl st L p k,
+  erase_stmt_locs (sloc tbl L p k st) = erase_stmt_locs st.
+Proof. exact sloc_erase. Qed.
+
+Theorem block_loc_changes_locations_only : forall tbl l L p k,
+  map erase_stmt_locs (block_loc tbl L p k l) = map erase_stmt_locs l.
+Proof. exact block_loc_erase_all. Qed.
+
+(* (4) precisely: the renumbered arms denote the regexes that were written.  `stmt_pats tbl st` = the
+   regexes of the scan arms of st in order of appearance, read through the table tbl; for every table
+   tbl' that holds them from position k on (`pats_at`), the located statement read through tbl' has the
+   same regexes.  The table the parser returns is such a table (pats_at_parser_table). *)
+Theorem sloc_keeps_patterns : forall tbl tbl' st L p k,
+  pats_at tbl' k (stmt_pats tbl st) -> stmt_pats tbl' (sloc tbl L p k st) = stmt_pats tbl st.
+Proof. exact sloc_keeps_all. Qed.
+
+Theorem block_loc_keeps_patterns : forall tbl tbl' l L p k,
+  pats_at tbl' k (stmts_pats tbl l) -> stmts_pats tbl' (block_loc tbl L p k l) = stmts_pats tbl l.
+Proof. exact block_loc_keeps_all. Qed.
+
+Theorem pats_at_parser_table : forall pre ps post, pats_at (pre ++ ps ++ post) (length pre) ps.
+Proof. exact pats_at_table. Qed.
+
+(* Files: per item, locations; for a stanza also st_full_file_idx (reset to u32_max, the checker fills it) *)
+Theorem file_items_loc_changes_locations_only : forall tbl X L items,
+  map erase_item_locs (file_items_loc tbl X L items) = map erase_item_locs items.
+Proof. exact file_items_loc_erase. Qed.
+
+(* Hence the round trips WITHOUT reference to sloc: the parser returns a statement that erases to the
+   erased written statement, and whose scan arms, read through the pattern table the parser has
+   accumulated (kept in reverse in the state), are the written regexes *)
+Theorem parse_statement_recovers_ast : forall X F, UnicodeSane X -> forall tbl st L s g r,
+  WfStmt X tbl st -> WfLayout X L -> stmt_follow X (stmt_ends_word L st) g r ->
+  p_rest s = stext tbl L st ++ render_gap g ++ r -> (len s < F)%nat ->
+  exists st' s',
+    (st0 <- parse_statement X F ;; consume_whitespace X F ;;; ret st0) s = ROk st' s' /\
+    erase_stmt_locs st' = erase_stmt_locs st /\
+    stmt_pats (rev (p_pats s')) st' = stmt_pats tbl st.
+Proof.
+  intros X F HS tbl st L s g r Hwf HL Hf Hr HF.
+  rewrite (parse_render_stmt X F HS tbl st L s g r Hwf HL Hf Hr HF).
+  eexists. eexists. split; [reflexivity|]. split; [apply sloc_erase|].
+  apply sloc_keeps_all. cbn [add_pats p_pats st_after]. rewrite rev_app_distr, rev_involutive.
+  rewrite <- (rev_length (p_pats s)). rewrite <- (app_nil_r (stmt_pats tbl st)) at 1. apply pats_at_table.
+Qed.
+
+Theorem parse_file_recovers_items : forall X tbl items L, UnicodeSane X ->
+  Forall (WfItem X tbl) items -> WfLayout X L ->
+  queries_ok X tbl (sub L 1) 0 (bytes (G L 0)) items ->
+  x_merged X (concat (map item_query_source items)) = Some true ->
+  let text := file_text tbl X L items in
+  exists items',
+    parse X (fuel_of text) text = POk (file_of_items items') (concat (map (item_pats tbl) items)) /\
+    map erase_item_locs items' = map erase_item_locs items.
+Proof.
+  intros X tbl items L HS Hwf HL Hq Hm text. exists (file_items_loc tbl X L items). split.
+  - exact (parse_render_file X tbl items L HS Hwf HL Hq Hm).
+  - apply file_items_loc_erase.
+Qed.
+
+(* non-vacuity: on ex_stmt (capture indices 0 0, arm number 0, all locations (0,0)) the located statement
+   differs from the input — locations, and the capture is reset to u32_max u32_max — and erases to the
+   same statement; with the arm written as number 5 of a longer table the located arm is number 0 and
+   still denotes the regex "a+" *)
+Example ex_stmt_changes_locations_only :
+  sloc [[97; 43]] ex_layout (0, 0) 0 ex_stmt <> ex_stmt /\
+  erase_stmt_locs (sloc [[97; 43]] ex_layout (0, 0) 0 ex_stmt) = erase_stmt_locs ex_stmt /\
+  erase_stmt_locs ex_stmt <> ex_stmt /\
+  let st5 := SScan (EUnscoped [120] (0, 0)) [(5, [], (7, 7))] (3, 3) in
+  let tbl5 := [[]; []; []; []; []; [97; 43]] in
+  sloc tbl5 ex_layout (0, 0) 0 st5 <> st5 /\
+  stmt_pats tbl5 st5 = [[97; 43]] /\
+  stmt_pats [[97; 43]] (sloc tbl5 ex_layout (0, 0) 0 st5) = [[97; 43]].
+Proof.
+  split; [intros H; vm_compute in H; discriminate|]. split; [apply sloc_changes_locations_only|].
+  split; [intros H; vm_compute in H; discriminate|]. cbv zeta.
+  split; [intros H; vm_compute in H; discriminate|]. split; [reflexivity|].
+  rewrite (sloc_keeps_patterns [[]; []; []; []; []; [97; 43]] [[97; 43]]); [reflexivity|]. exact (pats_at_parser_table [] [[97; 43]] []).
+Qed.
